@@ -14,7 +14,7 @@ PROPS = ("C03", "C04", "C09", "C12", "C14", "C15")
 # which invariants run in a check of each property (the gating ones are those
 # whose violations carry that property id; the rest produce notes only)
 INV = {
-    "C09": ("I1", "I3"),
+    "C09": ("I1", "I2", "I3", "I8"),
     "C14": ("I1", "I2", "I8"),
     "C15": ("I1", "I7", "I8"),
     "C03": ("I1", "I4"),
